@@ -32,13 +32,13 @@ CLAIMED = {
  "C05": dict(engine="qsbrsim", level="exploration", design="DESIGN.md §6 C05",
    text="Abstract QSBR programs (publish, take reference to a linked object, touch, drop, unlink+on_next_epoch_deallocate, quiescent, pause+resume, spawn qsbr_thread, exit) of 2-4 threads over the real QSBR; "
         "every atomic step inside register/unregister/quiescent/orphan hand-over is a scheduling point and weak-CAS sites fail spuriously (buggify). A monitor checks at every free that each other thread "
-        "registered at the time of the request has since been inside quiescent/pause/exit, and that nobody holds a reference taken while the object was linked. A separate full-speed probe (-O2 build) stalls a reader that holds a reference while another thread goes through 2^32 quiescent states (width of the per-epoch counters).",
+        "registered at the time of the request has since been inside quiescent/pause/exit, and that nobody holds a reference taken while the object was linked. A separate full-speed probe (-O2 build) stalls a reader that holds a reference while another thread goes through 2^32 quiescent states (width of the per-epoch counters). Besides random programs: role templates (stayer, reader keeping a reference, writer that retires and leaves, late leaver, threads that start out paused) and rounds templates run under a lockstep strategy (operation k of every thread before operation k+1 of any, plus preemptions) so that several epochs really pass with all threads in step.",
    note="<= 4 threads + 1 spawned child, <= 8 objects; probes show the 'impossible to get deterministically' branches of qsbr.cpp are taken. " + SC,
    technique="deterministic simulation: seeded scheduler + buggify + QSBR monitor over call/return stamps"),
  "C06": dict(engine="qsbrsim", level="exploration", design="DESIGN.md §6 C06",
    text="C05 programs followed by a drain: three rounds in which every still-registered thread quiesces once (order and interleaving inside a round chosen by the scheduler), threads that pause or exit holding "
         "requests at any point of an epoch change, then the 'all but one unregistered, two quiescent states' tail. Ledger: each retired block freed exactly once, freed by the end of the third round, nothing "
-        "pending after the tail; the registered-thread count is compared with the program's count whenever no start/exit/pause/resume is in flight.",
+        "pending after the tail; the registered-thread count is compared with the program's count whenever no start/exit/pause/resume is in flight. Rounds templates under the lockstep strategy make several threads hand over aged (previous-interval) requests around one and the same epoch change.",
    note="The three-round bound is checked on rounds that start after every request; " + SC,
    technique="deterministic simulation: seeded scheduler + allocation ledger + thread-count model"),
  "C07": dict(engine="locksim", level="exploration", design="DESIGN.md §6 C07",
